@@ -682,11 +682,17 @@ func phName(ph *ssa.Phi, i int) string {
 func (v *Verifier) loopBack(li *loopInfo, st *State, phis []*ssa.Phi, vals []Value) {
 	lbl := fmt.Sprintf("%d", li.ordinal)
 	if li.spec == nil {
+		for _, f := range v.frameFormulas(st, true) {
+			v.emit(st, "frame.loop", lbl+"."+mangle(f.name), f.formula, nil, "loop "+lbl+": writes to "+f.name+" stay inside the modifies clause (or fresh objects)", nil)
+		}
 		return
 	}
 	se := v.specEnv(st, v.loopVars(li, st, phis, vals))
 	for _, inv := range li.spec.Invariants {
 		v.emit(st, "inv.preserve", lbl+"."+inv.Label, se.evalBool(inv.E), inv.Props, inv.Text, nil)
+	}
+	for _, f := range v.frameFormulas(st, true) {
+		v.emit(st, "frame.loop", lbl+"."+mangle(f.name), f.formula, nil, "loop "+lbl+": writes to "+f.name+" stay inside the modifies clause (or fresh objects)", nil)
 	}
 	if li.spec.Decreases != nil {
 		m0 := st.measure[li.ordinal]
@@ -743,6 +749,14 @@ func (v *Verifier) havocLoop(li *loopInfo, st *State) {
 	sort.Strings(names)
 	for _, n := range names {
 		v.env.heapHavoc(st, n, maps[n])
+	}
+	// the function's modifies clause is an implicit loop invariant: outside it (and outside
+	// objects allocated since entry) nothing has changed since entry. Assumed here, checked at
+	// every back edge (frame.loop obligations) and at every return (frame obligations).
+	if v.contract != nil && !all {
+		for _, f := range v.frameFormulas(st, false) {
+			st.assume(f.formula)
+		}
 	}
 	// allocation counter may grow
 	na := v.env.ctx.freshConst("alloc", "Int")
@@ -1709,29 +1723,33 @@ func exprName(e Expr) string {
 	return ""
 }
 
-func (v *Verifier) checkFrame(st *State, in ssa.Instruction) {
+type frameF struct {
+	name    string
+	formula string
+}
+
+// frameFormulas: for every heap map that differs from its initial version on this path, the
+// formula "outside the modifies clause and outside objects allocated since entry, the map equals
+// its initial version". asGoal selects the (skolemisable) goal form.
+func (v *Verifier) frameFormulas(st *State, asGoal bool) []frameF {
 	if v.contract == nil {
-		return
+		return nil
 	}
 	pre := v.specEnv(st, v.baseVars(st)).inState(v.entry)
 	pre.old = v.entry
 	sets, _, everything := v.modSets(v.contract, pre)
 	if everything {
-		return
+		return nil
 	}
-	names := sortedKeys(st.heap)
-	for _, name := range names {
+	var out []frameF
+	for _, name := range sortedKeys(st.heap) {
 		cur := st.heap[name]
 		init, ok := v.env.init[name]
 		if !ok || cur == init {
 			continue
 		}
-		if strings.HasPrefix(name, "C!") && !v.cellMapEscapes(name) {
-			// local cells only
-		}
-		allowed := sets[name]
 		wild := false
-		for _, a := range allowed {
+		for _, a := range sets[name] {
 			if a == "*" {
 				wild = true
 			}
@@ -1741,19 +1759,36 @@ func (v *Verifier) checkFrame(st *State, in ssa.Instruction) {
 		}
 		srt := st.hsort[name]
 		if !strings.HasPrefix(srt, "(Array Int ") {
-			// global ghost variable
-			v.emit(st, "frame", mangle(name), eq(cur, init), nil, "ghost variable "+name+" is not in the modifies clause", in)
+			out = append(out, frameF{name, eq(cur, init)})
 			continue
 		}
-		r := v.env.ctx.freshConst("frame.r", "Int")
+		r := "fr!r"
 		var alts []string
 		alts = append(alts, eq(sel2(cur, r), sel2(init, r)))
 		alts = append(alts, "(> "+r+" "+v.entry.alloc+")")
 		alts = append(alts, "(<= "+r+" 0)")
-		for _, a := range allowed {
+		for _, a := range sets[name] {
 			alts = append(alts, eq(r, a))
 		}
-		v.emit(st, "frame", mangle(name), or(alts...), nil, "writes to "+name+" stay inside the modifies clause (or fresh objects)", in)
+		out = append(out, frameF{name, "(forall ((fr!r Int)) (! " + or(alts...) + " :pattern ((select " + cur + " fr!r))))"})
+	}
+	return out
+}
+
+func (v *Verifier) checkFrame(st *State, in ssa.Instruction) {
+	if st.unknownWrites && v.contract != nil {
+		ev := false
+		for _, m := range v.contract.Modifies {
+			if m.Kind == "everything" {
+				ev = true
+			}
+		}
+		if !ev {
+			v.emit(st, "frame", "unknown-callee", "false", nil, "a callee without contract may have written anything; the modifies clause cannot be proved", in)
+		}
+	}
+	for _, f := range v.frameFormulas(st, true) {
+		v.emit(st, "frame", mangle(f.name), f.formula, nil, "writes to "+f.name+" stay inside the modifies clause (or fresh objects)", in)
 	}
 }
 
